@@ -9,7 +9,7 @@ from harness.props import c02, c06
 
 PROP = 'C04'
 
-TRUSTED = c02.TRUSTED
+TRUSTED = c02.TRUSTED      # includes the real-process part's description
 ASSUME = [
     'theorems: Server layer and Ensemble catalog (ids distinct); failure sites preprocess / call / ensemble member / stage index, batching on/off and concurrent callers are enumerated by the full-stack scheduled runs and judged by the oracle',
     'exceptions cross only thread boundaries in these runs; the process-boundary behaviour of RemoteException is C15',
@@ -54,6 +54,7 @@ def parts():
                   c02.server_oracle, lambda r: any(o and o[0] == 'answered-exc' for o in r['outcomes']) and
                   any(o and o[0] == 'answered' for o in r['outcomes']), shard=150,
                   describe=lambda r: {k: r.get(k) for k in ('cfg', 'strategy', 'verdict', 'outcome', 'outcomes')}),
+        __import__('harness.scen_procstack', fromlist=['part']).part(8, 60, calls_only=True),
     ]
 
 
